@@ -78,3 +78,23 @@ void htp_log(htp_connp_t *connp, const char *file, int line, enum htp_log_level_
 #endif
 
 #endif
+
+/* ---- multipart body callback after the parser gave its strings to the transaction -------------------------------------------
+ * Once gave_up_data == 1 the names and values of the text parts belong to tx->request_params.  Any further invocation (more body
+ * bytes, or a SECOND end-of-body signal: a stream gap that reaches the end of the body is followed by the regular end-of-body call)
+ * must be refused without touching the parser or the transaction: a second finalisation would add the same strings to the
+ * parameter table again and they would be freed twice at teardown (C01 / C18). */
+#ifdef C18_MPART_AFTER_GIVEUP
+htp_status_t contract_never_htp_mpartp_parse(htp_mpartp_t *parser, const void *data, size_t len) __CPROVER_requires(0) __CPROVER_assigns() __CPROVER_ensures(1);
+htp_status_t contract_never_htp_mpartp_finalize(htp_mpartp_t *parser) __CPROVER_requires(0) __CPROVER_assigns() __CPROVER_ensures(1);
+htp_multipart_t *contract_never_htp_mpartp_get_multipart(htp_mpartp_t *parser) __CPROVER_requires(0) __CPROVER_assigns() __CPROVER_ensures(1);
+size_t contract_never_htp_list_array_size(const htp_list_array_t *l) __CPROVER_requires(0) __CPROVER_assigns() __CPROVER_ensures(1);
+void *contract_never_htp_list_array_get(const htp_list_array_t *l, size_t idx) __CPROVER_requires(0) __CPROVER_assigns() __CPROVER_ensures(1);
+htp_status_t contract_never_htp_tx_req_add_param(htp_tx_t *tx, htp_param_t *param) __CPROVER_requires(0) __CPROVER_assigns() __CPROVER_ensures(1);
+htp_status_t contract_htp_ch_multipart_callback_request_body_data(htp_tx_data_t *d)
+__CPROVER_requires(__CPROVER_is_fresh(d, sizeof(*d)) && __CPROVER_is_fresh(d->tx, sizeof(htp_tx_t)) && __CPROVER_is_fresh(d->tx->request_mpartp, sizeof(htp_mpartp_t)))
+__CPROVER_requires(d->tx->request_mpartp->gave_up_data == 1)
+__CPROVER_assigns()
+__CPROVER_ensures(__CPROVER_return_value == HTP_ERROR)
+;
+#endif
